@@ -367,7 +367,7 @@ impl ThroughFile {
 }
 impl Space for ThroughFile {
     fn name(&self) -> String {
-        "ElfBytes::section_data_as_notes (sh_addralign) and segment_data_as_notes (p_align) on generated files: align in {0,1,2,4,8,16,3,5,12} x 4 encodings x note1 (namesz, descsz in 0..=8; name family {XY.., GNU + NULs} x type {7, 1, 3}) followed by a build-id and an ABI-tag note".into()
+        "ElfBytes and ElfStream: section_data_as_notes (sh_addralign) and segment_data_as_notes (p_align, p_memsz != p_filesz) on generated files: align in {0,1,2,4,8,16,3,5,12} x 4 encodings x note1 (namesz, descsz in 0..=8; name family {XY.., GNU + NULs} x type {7, 1, 3}) followed by a build-id and an ABI-tag note".into()
     }
     fn size(&self) -> u64 {
         product(&Self::dims())
@@ -389,7 +389,8 @@ impl Space for ThroughFile {
         let body = build_notes(enc.order, align.max(1), &notes, 0);
         let mut spec = Spec::new(enc, TableOrder::TablesFirst);
         spec.secs = vec![Sec::new(b".note.x", SHT_NOTE, body.clone()).addralign(align as u64)];
-        spec.segs = vec![Seg { p_type: PT_NOTE, flags: 4, vaddr: 0, paddr: 0, align: align as u64, memsz_extra: 1, target: SegTarget::Section(1) }];
+        // p_memsz differs from p_filesz (below it for even cases, as in core files; above it otherwise)
+        spec.segs = vec![Seg { p_type: PT_NOTE, flags: 4, vaddr: 0, paddr: 0, align: align as u64, memsz_extra: if idx % 2 == 0 { 0u64.wrapping_sub(5) } else { 9 }, target: SegTarget::Section(1) }];
         let b = refmodel::image::build(&spec);
         let (off, size) = b.sec_range(1);
         let data = &b.bytes[off as usize..(off + size) as usize];
@@ -402,6 +403,30 @@ impl Space for ThroughFile {
             let c = f.segment_data_as_notes(&ph).ok().map(|it| collect(it, data, data.len() + 2));
             Some((a, c))
         });
+        // the same two views through the stream parser (its buffers are copies: contents are compared)
+        let rs = subject(|| {
+            let mut f = elf::ElfStream::<AnyEndian, _>::open_stream(std::io::Cursor::new(b.bytes.clone())).ok()?;
+            let sh = *f.section_headers().get(1)?;
+            let ph = *f.segments().first()?;
+            let a = f.section_data_as_notes(&sh).ok().map(|it| it.take(data.len() + 2).map(|n| format!("{n:?}")).collect::<Vec<_>>());
+            let c = f.segment_data_as_notes(&ph).ok().map(|it| it.take(data.len() + 2).map(|n| format!("{n:?}")).collect::<Vec<_>>());
+            Some((a, c))
+        });
+        let want_dbg: Vec<String> = NoteIterator::new(if enc.order == Order::Lsb { AnyEndian::Little } else { AnyEndian::Big }, class_of(enc), align, data).take(data.len() + 2).map(|n| format!("{n:?}")).collect();
+        match rs {
+            Err(m) => out.violate(format!("panic:ElfStream::*_as_notes in {}", panic_site(&m)), m),
+            Ok(None) => out.violate("notes-differ:ElfStream does not open the file", format!("align {align} {}", enc.name())),
+            Ok(Some((a, c))) => {
+                // NoteIterator on the raw bytes is judged above / in the other spaces; here: the stream's
+                // views walk exactly those bytes
+                for (who, got) in [("ElfStream::section_data_as_notes", a), ("ElfStream::segment_data_as_notes", c)] {
+                    out.transitions += 1;
+                    if got.as_ref() != Some(&want_dbg) {
+                        out.violate(format!("notes-differ:{who}"), format!("align {align} {}: the stream view yields {:?}, the section's bytes hold {:?}", enc.name(), got, want_dbg));
+                    }
+                }
+            }
+        }
         match r {
             Err(m) => out.violate(format!("panic:ElfBytes::*_as_notes in {}", panic_site(&m)), m),
             Ok(None) | Ok(Some((None, _))) | Ok(Some((_, None))) => out.violate("notes-differ:file does not yield a note iterator", format!("align {align} {}", enc.name())),
